@@ -52,17 +52,17 @@ type gcIter struct {
 }
 
 type gcRun struct {
-	fid    uint32
+	fid uint32
 	// scan seam: the rewrite parks before examining record at+1 (mid closed), until resumeMid
 	mid       chan struct{}
 	resumeMid chan struct{}
 	inScan    bool
 	parked    chan struct{}
 	resume    chan struct{}
-	done   chan error
-	pre    []readSnap
-	before badger.VVlogState
-	nrec   int
+	done      chan error
+	pre       []readSnap
+	before    badger.VVlogState
+	nrec      int
 }
 
 type gcSess struct {
@@ -1045,9 +1045,19 @@ func genGcSession(rng *rand.Rand, st *Stats) []string {
 	levels := pick(rng, 3, 4, 4, 7)
 	maxent := pick(rng, 1, 2, 2, 3, 5)
 	var ops []string
+	// prefill: the last level is filled with more than BaseLevelSize of filler keys (63xxxx, a range
+	// none of the session's keys falls into), so that L0 compacts into a level ABOVE the last one
+	prefill := rng.Intn(3) == 0
+	tblsz, basesz := pick(rng, 2<<20, 2<<20, 2048), pick(rng, 10<<20, 4096)
+	if prefill {
+		tblsz, basesz = 2<<20, 1024
+		if levels == 3 {
+			levels = 4
+		}
+	}
 	ops = append(ops, fmt.Sprintf("reset managed=%d keep=%d thr=%d levels=%d maxent=%d memsz=%d tblsz=%d basesz=%d",
-		b2i(managed), keep, thr, levels, maxent, 1<<20, pick(rng, 2<<20, 2<<20, 2048), pick(rng, 10<<20, 4096)))
-	st.Inc(fmt.Sprintf("session:managed=%v,keep=%d,maxent=%d", managed, keep, maxent))
+		b2i(managed), keep, thr, levels, maxent, 1<<20, tblsz, basesz))
+	st.Inc(fmt.Sprintf("session:managed=%v,keep=%d,maxent=%d,prefill=%v", managed, keep, maxent, prefill))
 	nkeys := 2 + rng.Intn(5)
 	var keys [][]byte
 	for len(keys) < nkeys {
@@ -1117,9 +1127,61 @@ func genGcSession(rng *rand.Rand, st *Stats) []string {
 		}
 		ops = append(ops, fmt.Sprintf("commit %d %d", id, c))
 	}
+	// the #2286 shape: a rewrite parked inside its scan (or after it), then a delete of some key, the
+	// read mark moved past the tombstone, flush and a compaction, all before the write-back
+	burst2286 := func() {
+		o := fmt.Sprintf("gcbegin sel=%d", rng.Intn(8))
+		if rng.Intn(3) != 0 {
+			o += fmt.Sprintf(" at=%d", 1+rng.Intn(3))
+		}
+		ops = append(ops, o)
+		write(true)
+		if rng.Intn(2) == 0 {
+			write(true)
+		}
+		ops = append(ops, fmt.Sprintf("begin %d 0 %d", nextID, rtsOf()), fmt.Sprintf("discard %d", nextID))
+		nextID++
+		if managed {
+			disc = cts
+			ops = append(ops, fmt.Sprintf("setdiscard %d", disc))
+		}
+		ops = append(ops, "flush", fmt.Sprintf("compact this=0 id=0 adj=%s", pick(rng, "1.5", "1.5", "0")))
+		if rng.Intn(2) == 0 {
+			ops = append(ops, "gccont")
+		}
+		ops = append(ops, "gcend")
+	}
+	if prefill {
+		id := nextID
+		nextID++
+		w := uint64(0)
+		if managed {
+			w = math.MaxUint64
+		}
+		ops = append(ops, fmt.Sprintf("begin %d 1 %d", id, w))
+		for x := 0; x < 80; x++ {
+			v := make([]byte, 12)
+			rng.Read(v)
+			ops = append(ops, fmt.Sprintf("set %d 63%04x 0 0 0 %s 0", id, x, hx(v)))
+		}
+		c := uint64(0)
+		if managed {
+			cts++
+			c = cts
+		}
+		ops = append(ops, fmt.Sprintf("commit %d %d", id, c), "flush", "compact this=0 id=0 adj=1.5")
+	}
 	// seed data so that there are several value-log files
 	for i := 0; i < 3+rng.Intn(5); i++ {
 		write(false)
+	}
+	if prefill {
+		// while the session's keys are still only in L0/the memtable (nothing of them below the base level)
+		burst2286()
+		if rng.Intn(2) == 0 {
+			write(false)
+			burst2286()
+		}
 	}
 	nops := 15 + rng.Intn(40)
 	for i := 0; i < nops; i++ {
@@ -1180,29 +1242,7 @@ func genGcSession(rng *rand.Rand, st *Stats) []string {
 				ops = append(ops, fmt.Sprintf("compact pick=%d id=%d adj=%s", rng.Intn(16), rng.Intn(2), pick(rng, "1.5", "1.5", "0")))
 			}
 		case r < 90 && !parked:
-			// the #2286 shape: a rewrite parked inside its scan (or after it), then a delete of some
-			// key, the read mark moved past the tombstone, flush and a compaction, all before the
-			// write-back
-			o := fmt.Sprintf("gcbegin sel=%d", rng.Intn(8))
-			if rng.Intn(3) != 0 {
-				o += fmt.Sprintf(" at=%d", 1+rng.Intn(3))
-			}
-			ops = append(ops, o)
-			write(true)
-			if rng.Intn(2) == 0 {
-				write(true)
-			}
-			ops = append(ops, fmt.Sprintf("begin %d 0 %d", nextID, rtsOf()), fmt.Sprintf("discard %d", nextID))
-			nextID++
-			if managed {
-				disc = cts
-				ops = append(ops, fmt.Sprintf("setdiscard %d", disc))
-			}
-			ops = append(ops, "flush", fmt.Sprintf("compact this=0 id=0 adj=%s", pick(rng, "1.5", "1.5", "0")))
-			if rng.Intn(2) == 0 {
-				ops = append(ops, "gccont")
-			}
-			ops = append(ops, "gcend")
+			burst2286()
 		case r < 92:
 			if !parked {
 				ops = append(ops, fmt.Sprintf("gc ratio=%s", pick(rng, "0.01", "0.2", "0.5", "0.9")))
